@@ -552,7 +552,7 @@ def main(argv):
         ck.correspond(hb, db, [read_replay(ck.replay)], label="constfold", env=env)
         ck.finish(META["level_text"])
 
-    n = int(os.environ.get("VERIF_C14_N", "0")) or (5000 if ck.tier == "quick" else 150000)
+    n = int(os.environ.get("VERIF_C14_N", "0")) or (5000 if ck.tier == "quick" else 60000)
     r = ck.rng
     cands = list(CORPUS_EXPRS) + list(KNOWN_EXPRS)
     ncorpus = len(cands)
@@ -632,17 +632,29 @@ def main(argv):
             cnt["model_ub_skipped"] += 1      # undefined in C++ and in occa's own host code: nothing to compare
         else:
             gen_lines.append(line)
-    hs = [[l] for l in corpus_lines + known_lines]
+    hs = [[l] for l in corpus_lines]
     hs += [gen_lines[i:i + 20] for i in range(0, len(gen_lines), 20)]
     # primitive::load on signed strings (the json / string constructor path)
     hs += [P_CORPUS] + [[gen_P(r) for _ in range(20)] for _ in range(10 if ck.tier == "quick" else 300)]
+
+    # canonical replays of the known findings: already minimal, run directly (no shrinking rounds)
+    if known_lines:
+        kh = [[l] for l in known_lines]
+        kimpl, kora, _ = ck.run_impl(hb, kh, timeout=1800, env=env)
+        kmodel = ck.run_model(db, kh, timeout=1800)
+        for i, l in enumerate(known_lines):
+            if kora[i] or kimpl[i] != kmodel[i]:
+                ck.oracle_violation(ck._what("constfold", kimpl[i], kmodel[i], kora[i]), l)
+            else:
+                ck.notes.append("known finding no longer reproduces: " + l)
+        cnt["known_finding_replays"] = len(known_lines)
 
     def nontrivial(h, impl):
         return any(l.startswith("E T:") for l in h) or any(l.startswith("P ") for l in h)
     ck.correspond(hb, db, hs, label="constfold", env=env, nontrivial=nontrivial, timeout=1800)
     shrink_violations(ck, hb, db, env)
     cnt["expressions_evaluated_by_occa"] = len(corpus_lines) + len(known_lines) + len(gen_lines)
-    ck.cov["evaluations"] = sum(len(h) for h in hs)
+    ck.cov["evaluations"] = sum(len(h) for h in hs) + len(known_lines)
     ck.cov["distinct_nontrivial"] = len(set(l for h in hs for l in h if l.startswith("E T:")))
     ck.cov["samples"] = [{"text": cands[i][1], "g++": host[i], "spec": spec[i], "model": model[i]}
                          for i in range(ncorpus, min(len(cands), ncorpus + 6))] + ck.cov["samples"][:2]
